@@ -201,9 +201,27 @@ func runEVT(w *World, f *Func, r evtRule) []evtFinding {
 	info := f.Pkg.TypesInfo
 	g := cfg.New(f.Body, noReturnCall(info))
 	// the label of the function's first statement, if any (target of tail self-jumps)
+	// a top-level label that is only ever jumped to from below it (a restart point)
 	var entryLabel *ast.LabeledStmt
-	if len(f.Body.List) > 0 {
-		entryLabel, _ = f.Body.List[0].(*ast.LabeledStmt)
+	for _, st := range f.Body.List {
+		ls, ok := st.(*ast.LabeledStmt)
+		if !ok {
+			continue
+		}
+		backOnly, any := true, false
+		walkNoLit(f.Body, func(n ast.Node) bool {
+			if br, ok := n.(*ast.BranchStmt); ok && br.Tok == token.GOTO && br.Label != nil && br.Label.Name == ls.Label.Name {
+				any = true
+				if br.Pos() < ls.Pos() {
+					backOnly = false
+				}
+			}
+			return true
+		})
+		if any && backOnly {
+			entryLabel = ls
+			break
+		}
 	}
 	in := make([]map[string]bool, len(g.Blocks))
 	for i := range in {
@@ -379,7 +397,7 @@ func runEVT(w *World, f *Func, r evtRule) []evtFinding {
 			// (Next: "run the next statement right away"): the activation ends here exactly as it would at
 			// `return f(params…)`, and the one that follows starts from the entry like any other. The states reaching
 			// the jump are handed to ret as a relayed return and are not carried round the back edge.
-			if succ.Kind == cfg.KindLabel && entryLabel != nil && succ.Stmt == ast.Stmt(entryLabel) && b.Index != 0 {
+			if succ.Kind == cfg.KindLabel && entryLabel != nil && succ.Stmt == ast.Stmt(entryLabel) && isGotoEdge(w, b, entryLabel) {
 				at := ast.Node(entryLabel)
 				if len(b.Nodes) > 0 {
 					at = b.Nodes[len(b.Nodes)-1]
@@ -396,6 +414,14 @@ func runEVT(w *World, f *Func, r evtRule) []evtFinding {
 						if msg := r.ret(st, synth, "relay"); msg != "" {
 							report(at, msg)
 						}
+					}
+				}
+				// the activation that follows starts at the label, without whatever precedes it in the function
+				if !in[succ.Index][r.start] {
+					in[succ.Index][r.start] = true
+					if !queued[succ.Index] {
+						queued[succ.Index] = true
+						work = append(work, succ.Index)
 					}
 				}
 				continue
@@ -690,4 +716,17 @@ func evalKnown(info *types.Info, cond ast.Expr, full string) int {
 		}
 	}
 	return 0
+}
+
+// isGotoEdge: the edge from b into the label's block is a jump (goto), not the fall-through from the statement that
+// precedes the label. go/cfg records no node for a goto: the fall-through predecessor is the block that holds the
+// statement textually before the label (or the entry block when the label comes first).
+func isGotoEdge(w *World, b *cfg.Block, label *ast.LabeledStmt) bool {
+	if len(b.Nodes) == 0 {
+		// an empty predecessor: the entry block of a function that starts with the label falls through; anything else
+		// that is empty and jumps here was created for a goto
+		return b.Index != 0
+	}
+	last := b.Nodes[len(b.Nodes)-1]
+	return last.Pos() > label.Pos()
 }
